@@ -53,7 +53,7 @@ theorem run_lift (i : Inst) {b b' : Cvrp.State} {as : List Nat} (h : Run Cvrp.en
       simp [canReach, Params.cvrptwMaskTwCmp, Cmp.eval, hk1]
     have ht : (env.step i s a).time =
         (if a ≠ 0 then max (s.time + i.base.D s.base.cur a) (i.twS a) + i.dur a else 0) := by
-      simp only [env, step, refresh, hc a]
+      rw [step_time, hc a]
     obtain ⟨s', hrun, hb⟩ := ih (env.step i s a) rfl (cache_refresh i _ _) (by
       rw [ht]
       exact hk2)
